@@ -175,6 +175,7 @@ def run(chk):
     # ---- R4 operand index spaces
     index_space_rule(chk, by_norm, roots, ref)
     call_pairing_rule(chk, by_norm)
+    line_table_rules(chk, by_norm)
     # ---- R3 who-may-write
     n3 = 0
     for f in d['fns']:
@@ -273,6 +274,65 @@ def space_of(e, fn, spec, env, loop_binds, depth=0):
             return a | b
         return a or b
     return None
+
+
+def line_table_rules(chk, by_norm):
+    from sa.kinds import bytetable as BT
+    chk.rule('C14-R6', 'line-table arithmetic: in every function that writes CodeObj.lnotab, each byte pushed is provably within its bound (address increment <= 255, line increment '
+                       '<= 127: the interpreter reads it as a signed byte), no conversion of a delta can trap (`u8::try_from(..).unwrap()`), a table byte is only increased by the '
+                       'head-room computed from it, a chunking loop subtracts exactly what it pushes, and prev_lineno is advanced by the whole delta (not by a variable the chunking '
+                       'reduced)')
+    chk.rule('C14-R7', 'the line table is written in the format of the target version: co_lnotab pairs up to 3.9, the PEP 626 co_linetable for 3.10, the PEP 657 location table for '
+                       '3.11; a writer without a version distinction produces a table the newer interpreters cannot read (every line reads as -1)')
+    writers = []
+    for nm, f in sorted(by_norm.items()):
+        touches = False
+        for n in T.walk(f['body']):
+            if n.get('k') == 'MCall' and n['n'] in ('push', 'last_mut', 'extend', 'extend_from_slice') and T.peel(n['r']).get('k') == 'Field' and T.peel(n['r'])['n'] == 'lnotab':
+                touches = True
+            if n.get('k') == 'Let' and n.get('init') is not None:
+                i = T.peel(n['init'])
+                while i.get('k') in ('Ref',):
+                    i = T.peel(i['x'])
+                if i.get('k') == 'Field' and i.get('n') == 'lnotab' and any(x.get('k') == 'MCall' and x['n'] in ('push', 'last_mut') for x in T.walk(f['body'])):
+                    touches = True
+        if touches:
+            writers.append(nm)
+    chk.floor('functions writing the line table', len(writers), 2)
+    for nm in writers:
+        f = by_norm[nm]
+        b = BT.Bounds(f, 'lnotab', (255, 127)).run()
+        for kind, inst, msg, line in b.findings:
+            chk.bad('C14-R6', nm, inst, '%s: %s' % (nm, msg), CODEGEN, line)
+        for o in b.ok:
+            chk.ok('C14-R6', (nm,) + tuple(o))
+    # conservation: wherever the running line is advanced
+    ntot = 0
+    for nm, f in sorted(by_norm.items()):
+        mutated = {T.peel(n['x'])['n'] for n in T.walk(f['body']) if n.get('k') in ('AssignOp', 'Assign') and T.peel(n['x']).get('k') == 'Local'}
+        b = type('B', (), {'mutated': mutated})
+        for n in T.walk(f['body']):
+            if n.get('k') == 'AssignOp' and n.get('op') == '+=' and T.peel(n['x']).get('k') == 'Field' and T.peel(n['x'])['n'] == 'prev_lineno':
+                y = T.peel(n['y'])
+                if y.get('k') == 'Local' and y['n'] in b.mutated:
+                    chk.bad('C14-R6', nm, 'total:%s' % y['n'], '%s advances prev_lineno by `%s`, a variable the chunking above has reduced: after a jump of more than 127 lines the '
+                            'running line falls behind and every later line is reported too high' % (nm, y['n']), CODEGEN, n['l'])
+                else:
+                    ntot += 1
+                    chk.ok('C14-R6', (nm, 'total', n['l']))
+    chk.floor('updates of the running line', ntot, 5)
+    # format per version: a writer (or its only callers) must distinguish the table formats
+    fmt_aware = False
+    for nm in writers:
+        s_ = ' '.join(T.show(n['c']) for n in T.walk(by_norm[nm]['body']) if n.get('k') == 'If')
+        if 'py_version' in s_ and ('Some(10)' in s_ or 'Some(11)' in s_):
+            fmt_aware = True
+    for ver, what in (('3.10', 'co_linetable (PEP 626)'), ('3.11', 'the location table (PEP 657)')):
+        if fmt_aware:
+            chk.ok('C14-R7', ver)
+        else:
+            chk.bad('C14-R7', 'PyCodeGenerator::push_lnotab', 'format@' + ver, 'the line table is written as co_lnotab pairs whatever the target: Python %s expects %s, so every '
+                    'instruction of every code object maps to line -1 there' % (ver, what), CODEGEN, by_norm[writers[0]]['line'] if writers else None)
 
 
 def call_pairing_rule(chk, by_norm, rid='C14-R5', diverging_only=False):
